@@ -129,3 +129,9 @@ Proof. intros a H; dty a; try discriminate H; (split; [intros [|]; reflexivity|s
 
 Lemma refwrap_std_agrees : forall x, refwrap_std_m x = refwrap_std_spec x.
 Proof. intros x. unfold refwrap_std_m, refwrap_std_spec. f_equal. apply Z.rem_mod_nonneg; lia. Qed.
+
+Lemma fref_ptr_agrees : forall v, fref_ptr_m v = fref_ptr_spec v.
+Proof. reflexivity. Qed.
+
+Lemma xfer_agrees : xfer_m = xfer_spec.
+Proof. vm_compute. reflexivity. Qed.
